@@ -136,10 +136,12 @@ def observe_conv(type_, nullable, is_none, text, via, exact=None):
     ev.update(type=type_, nullable=nullable, isNone=is_none, text=list(text))
     if exact is not None:
         ev.update(hasF=True, fnum=exact.numerator, fden=exact.denominator)
+    # bits no flag is defined for ride along (they are ignored by the constructors: the conversion must not notice them)
+    junk = (0, 0, 64, 4096, 8192, 4096 | 64)[(len(text) + len(type_) + nullable) % 6] if via == "opt" else (0, 0, 512, 1024, 2048)[(len(text) + nullable) % 5]
     if via == "opt":
-        obj = Option("option", None, Option.REQUIRED_VALUE | TYPEBIT_OPT[type_] | (Option.NULLABLE if nullable else 0))
+        obj = Option("option", None, Option.REQUIRED_VALUE | TYPEBIT_OPT[type_] | (Option.NULLABLE if nullable else 0) | junk)
     else:
-        obj = Argument("argument", TYPEBIT_ARG[type_] | (Argument.NULLABLE if nullable else 0))
+        obj = Argument("argument", TYPEBIT_ARG[type_] | (Argument.NULLABLE if nullable else 0) | junk)
     try:
         ev["obs"]["res"] = project_result(obj.parse(None if is_none else text))
     except ValueError:
